@@ -357,6 +357,14 @@ func generate(seed uint64, focus, arm string) *plan.Plan {
 			p.Focus, p.Arm = "C04", arm
 			return p
 		}
+		if arm == "redis" {
+			// the second-level cache: what is written there asynchronously (key
+			// and value travel in pooled buffers) is what a later lookup of
+			// that question gets back (C07's redis workload)
+			p := generate(seed, "C07", "redis")
+			p.Focus, p.Arm = "C04", arm
+			return p
+		}
 		if arm == "exhaust" {
 			// the end of a pipelined connection's id space: a wrapped id makes
 			// two queries share a slot, and the (replayed) reply to the first
@@ -486,6 +494,46 @@ func generate(seed uint64, focus, arm string) *plan.Plan {
 						rp.HorizonUs = at + 10_000_000
 					}
 				}
+			}
+		}
+		if focus == "C07" && r.p(0.3) {
+			// many different questions are answered within a few milliseconds
+			// and written to the second level (the only one) one after the
+			// other, while their buffers go back to the pool and out again;
+			// each is asked again later and must get its own answer back
+			rp := p.Router
+			rs.DownUs, rs.FlushUs = nil, nil
+			rp.Cache.MemSize = 0
+			if p.Knobs.YieldDensity == 0 {
+				p.Knobs.YieldDensity = []float64{0.02, 0.1, 0.3}[r.intn(3)]
+			}
+			t0 := r.i64(1_800_000, 3_000_000) // after the second level's first ping
+			d := r.i64(2_000, 30_000)
+			addOp := func(tok string, at int64) {
+				si := r.intn(len(rp.Servers))
+				ci := len(rp.Conns)
+				cc := plan.ClientConn{Idx: ci, Server: si, LingerUs: 8_000_000, Src: "192.0.2.7"}
+				if strings.HasPrefix(rp.Servers[si].Listen, "[::1]") {
+					cc.Src = "2001:db8:a::5"
+				}
+				rp.Conns = append(rp.Conns, cc)
+				op := plan.ClientOp{Idx: len(rp.Ops), Conn: ci, AtUs: at, ID: uint16(r.u64()), Token: tok, NQ: 1, Class: 1, Type: 1, Bits: refdns.BitRD}
+				op.Labels = append([][]byte{[]byte(tok)}, labelsOf("example.com")...)
+				if pr := rp.Servers[si].Proto; pr == "http" || pr == "fasthttp" || pr == "https" {
+					op.Method = "POST"
+				}
+				rp.Ops = append(rp.Ops, op)
+				if at+12_000_000 > rp.HorizonUs {
+					rp.HorizonUs = at + 12_000_000
+				}
+			}
+			for k, n := 0, r.rng(6, 30); k < n; k++ {
+				tok := fmt.Sprintf("t%d", 800+k)
+				rp.Tokens[tok] = &plan.TokenSpec{Ans: plan.AnswerSpec{NAn: r.rng(1, 3), TTLs: []uint32{60}, Shape: "plain"}, Acts: []plan.UpAction{{Kind: "reply", DelayUs: d + r.i64(0, 3000)}}}
+				// (a write takes up to 40 ms to leave the client library: answers
+				// keep coming in while earlier ones are on their way out)
+				addOp(tok, t0+int64(k)*r.i64(500, 25_000)+r.i64(0, 3000))
+				addOp(tok, t0+2_500_000+r.i64(0, 2_000_000))
 			}
 		}
 		if focus == "C08" && r.p(0.2) {
